@@ -197,3 +197,22 @@ Proof.
   repeat match goal with Hx : (_ <=? _) = true |- _ => apply Z.leb_le in Hx | Hx : (_ =? _) = true |- _ => apply Z.eqb_eq in Hx end.
   repeat split; lia.
 Qed.
+
+(* laid_out in pairwise form: of any two placed directives, the earlier one ends at or before the later one starts,
+   and all of them lie in [pos, e] *)
+Lemma laid_out_ge : forall ps pos e p, laid_out pos ps e -> In p ps -> pos <= p_start p /\ p_start p + p_size p <= e.
+Proof.
+  induction ps as [|q r IH]; intros pos e p H Hin; [destruct Hin|].
+  cbn [laid_out] in H. destruct H as (H1 & H2 & H3). destruct Hin as [<-|Hin].
+  - apply laid_out_le in H3. lia.
+  - destruct (IH _ _ _ H3 Hin). lia.
+Qed.
+
+Theorem laid_out_pairwise : forall a p b q c pos e,
+  laid_out pos (a ++ p :: b ++ q :: c) e -> p_start p + p_size p <= p_start q.
+Proof.
+  induction a as [|x a IH]; intros p b q c pos e H.
+  - cbn [app laid_out] in H. destruct H as (_ & _ & H).
+    destruct (laid_out_ge _ _ _ q H) as [Hq _]; [apply in_or_app; right; left; reflexivity|]. exact Hq.
+  - cbn [app laid_out] in H. destruct H as (_ & _ & H). eapply IH; eassumption.
+Qed.
